@@ -65,7 +65,7 @@ class C19(P.Property):
                    "exception type is prescribed only for out-of-range reads (IndexError) and closed-array use (ValueError); "
                    "a refused write may raise any exception"]
     probe_names = ["membership_probe_of_other_length", "slice_one_shot_values", "neg_read_after_reopen", "neg_read_last_chunk_unopened", "slice_fail_pos_ge1", "neg_step_slice_fail",
-                   "len_not_multiple_of_chunk", "chunk_gt_len", "op_while_closed", "reopen", "step0_slice", "from_list", "bystander_array", "interleaved_iteration", "write_during_iteration"]
+                   "len_not_multiple_of_chunk", "chunk_gt_len", "op_while_closed", "reopen", "step0_slice", "from_list", "bystander_array", "interleaved_iteration", "write_during_iteration", "ctx_raise"]
 
     def setup(self):
         from .. import world
@@ -163,6 +163,9 @@ class C19(P.Property):
                 steps.append({"op": "count", "pick": rng.randrange(n)})
             elif op == "close":
                 steps.append({"op": op, "ctx": rng.random() < 0.3})
+                if steps[-1]["ctx"] and rng.random() < 0.5:
+                    # the with-block's body ends in a failing operation: it raises out of the block like out of any other statement
+                    steps[-1]["raise_in"] = rng.choice(["index", "oversize", "nonbytes"])
             elif op == "iter2":
                 steps.append({"op": op, "reads": [rng.randrange(n) for _ in range(rng.randint(1, 4))], "twin": rng.random() < 0.3,
                               # writes made while the iterator is suspended: [after how many items, index, value]; a list iterator sees them
@@ -548,7 +551,26 @@ class C19(P.Property):
                     # the content check is left to later reads / the final check so that the
                     # lazily filled file cache stays empty for the next operation
                 elif op == "close":
-                    if st.get("ctx"):
+                    if st.get("ctx") and st.get("raise_in"):
+                        probe("ctx_raise")
+                        how, reached = st["raise_in"], []
+
+                        def body():
+                            with a:
+                                if how == "index":
+                                    a[n]
+                                elif how == "oversize":
+                                    a[0] = b"\xff" * (isz + 1)
+                                else:
+                                    a[0] = "x"
+                                reached.append(1)
+                        o = outcome(body)
+                        obs.append((op, "ctx-raise", o[0]))
+                        if o[0] != "exc" or reached:
+                            viol.append(V("C19.fail", "NO_RAISE", f"step {si}: a failing operation ({how}) inside a with-block did not raise out of it "
+                                                                  f"({'the body went on' if reached else 'the block swallowed it'})", step=si))
+                            break
+                    elif st.get("ctx"):
                         with a:  # leaving the with-block closes the array
                             pass
                     else:
